@@ -1,6 +1,8 @@
 package tax
 
 import (
+	"fmt"
+
 	"github.com/invopop/gobl/l10n"
 	"github.com/invopop/jsonschema"
 )
@@ -37,6 +39,19 @@ func (r *Regime) SetRegime(country l10n.TaxCountryCode) {
 // RegimeDef provides the associated regime definition.
 func (r Regime) RegimeDef() *RegimeDef {
 	return Regimes().For(r.Country.Code())
+}
+
+// Validate ensures that the regime, when set, is one that has been defined. This
+// struct is designed to be embedded, so we don't perform a regular validation on
+// the struct itself.
+func (r Regime) Validate() error {
+	if r.Country.Empty() {
+		return nil
+	}
+	if r.RegimeDef() == nil {
+		return fmt.Errorf("regime '%v' not defined", r.Country.String())
+	}
+	return nil
 }
 
 // IsEmpty returns true if the regime is empty.
